@@ -3,7 +3,6 @@
 // its own window), C10 (its querier answers from the enclosing transaction's current state), C13 (malformed
 // responses are rejected) at the level of with_storage / call_*.
 // ---------------------------------------------------------------------------
-pub open spec fn ns_wasm() -> Seq<u8> { seq![119u8, 97u8, 115u8, 109u8] }   // b"wasm"
 pub open spec fn ns_contract_data() -> Seq<u8> {                              // b"contract_data/"
     seq![99u8, 111u8, 110u8, 116u8, 114u8, 97u8, 99u8, 116u8, 95u8, 100u8, 97u8, 116u8, 97u8, 47u8]
 }
@@ -23,16 +22,6 @@ pub open spec fn resp_ok<T>(r: Response<T>) -> bool {
 }
 
 impl<ExecC, QueryC> WasmKeeper<ExecC, QueryC> {
-    // the code a stored code id stands for
-    pub open spec fn code_of(&self, code_id: u64) -> Option<&dyn Contract<ExecC, QueryC>> {
-        if code_id >= 1 && self.code_data@.contains_key(code_id) && self.code_data@[code_id].source_id < self.code_base@.len() {
-            Some(&*self.code_base@[self.code_data@[code_id].source_id as int])
-        } else { None }
-    }
-    pub open spec fn codes_wf(&self) -> bool {
-        forall|id: u64| self.code_data@.contains_key(id) ==> (#[trigger] self.code_data@[id]).source_id < self.code_base@.len()
-    }
-
     // what a call_* wrapper does, written from the statements
     pub open spec fn call_unfold(&self, kind: Entry, router: &dyn CosmosRouter<ExecC, QueryC>, s0: St, block: BlockInfo, address: Addr, info: Option<MessageInfo>, msg: Seq<u8>, reply: Option<Reply>) -> (AnyResult<Response<ExecC>>, St) {
         match self.contract_data_sem(s0, address) {
